@@ -232,6 +232,7 @@ theorem step_dinv {ts done : List Token} {b b' : Builder} (t : Token) (hok : Bui
     simp only [Builder.step] at hr
     split at hr
     · cases hr
+    rename_i hres
     simp only [Builder.processingInstruction, Step.ok.injEq] at hr
     subst hr
     refine addLeaf_dinv (done' := done ++ [.pi target content sp]) h hpre
@@ -256,7 +257,7 @@ theorem step_dinv {ts done : List Token} {b b' : Builder} (t : Token) (hok : Bui
         · rcases hasKey_add_cases hk with rfl | hk
           · exact .inr rfl
           · exact .inl hk
-    · refine ⟨target, content, sp, htok, ?_, internName_get _ _ _, rfl, ?_⟩
+    · refine ⟨target, content, sp, htok, ?_, internName_get _ _ _, rfl, ?_, by simpa using hres⟩
       · cases content with
         | none => exact get_add_self _ _ _
         | some c =>
